@@ -140,7 +140,7 @@ func worker(prop, tier string) {
 		fmt.Fprintln(os.Stderr, "unknown property", prop)
 		os.Exit(2)
 	}
-	units := pc.Units(tier)
+	units := onlyUnits(pc.Units(tier))
 	in := bufio.NewScanner(os.Stdin)
 	out := bufio.NewWriter(os.Stdout)
 	for in.Scan() {
@@ -223,6 +223,22 @@ func knownMatches(k knownFinding, key string) bool {
 	return false
 }
 
+// onlyUnits: investigation aid (VERIF_ONLY=<text> keeps the units whose name contains the text); the
+// coordinator and its workers apply the same filter, no registered command sets it.
+func onlyUnits(units []*Unit) []*Unit {
+	only := os.Getenv("VERIF_ONLY")
+	if only == "" {
+		return units
+	}
+	var keep []*Unit
+	for _, u := range units {
+		if strings.Contains(u.Name, only) {
+			keep = append(keep, u)
+		}
+	}
+	return keep
+}
+
 func envInt(name string, def int) int {
 	if v, err := strconv.Atoi(os.Getenv(name)); err == nil {
 		return v
@@ -238,7 +254,7 @@ func coordinator(prop, tier string) int {
 		return 2
 	}
 	seed := envInt("VERIF_SEED", 0)
-	units := pc.Units(tier)
+	units := onlyUnits(pc.Units(tier))
 	budget := pc.Budget(tier)
 	if v := os.Getenv("VERIF_BUDGET_S"); v != "" {
 		if n, err := strconv.Atoi(v); err == nil {
